@@ -5,6 +5,7 @@
 //! OPTICS (OPTICS also with its default infinite tolerance), against a reference recomputed from
 //! the definitions on a plain f64 distance table.
 
+mod builder;
 mod reference;
 
 use linfa::traits::Transformer;
@@ -528,6 +529,9 @@ fn run_typed<F: Float, D: Distance<F> + 'static>(case: &Case, dist_fn: D, only: 
 }
 
 fn replay_value(v: &Value) -> Vec<Violation> {
+    if v.get("builder").is_some() {
+        return builder::replay(v);
+    }
     let c: Case = match serde_json::from_value(v.clone()) {
         Ok(c) => c,
         Err(e) => {
@@ -558,11 +562,11 @@ fn main() {
          lexicographic order and its generic-position image (constant jitter table), every ordered selection of <=4 / <=5 lattice points (row orders), every multiset of <=5 points \
          of the 2x2 lattice with duplicates, every subset of <=4 / <=5 corners of the unit cube (3-D), the 5x4 lattice and the 1-D line {0..19} with <=1 / <=3 points removed \
          (n = 17..20 > default leaf size 16, so the k-d tree and the ball tree really branch), two 1-D blobs with a bridge position (0..3 / 0..4 copies at each of 5 positions, three row orders; L2 only), zero-feature matrices with 0..5 rows, empty matrices; the lattice3x3 / lattice2x2 / cube / 5x4 families (thorough: also the row-order family) are repeated in three further memory layouts of the same matrix \
-         (column-major, reversed-rows view, every-second-row view); \
+         (column-major, transposed view, reversed-rows view, every-second-row view); two n = 1025 point sets; a builder-history sub-sweep (every constructor x every setter sequence of length <= 3 with decoy writes, see assumptions); \
          per case: min_points 2..4 (2..5 for the large families), tolerances of class A (below the smallest positive inter-point distance, every midpoint between consecutive \
          distinct distances, above the largest) and class B (exactly every distinct inter-point distance), the three neighbour indices, DBSCAN and OPTICS, OPTICS also with its default \
          infinite tolerance. evaluation = one transform call; non-trivial = DBSCAN run whose reference clustering has a core point and is not 'all points core in one cluster', \
-         OPTICS run with a defined core distance and at least two distinct core-distance values (undefined counts as a value); distinct by construction of the enumerators.",
+         OPTICS run with a defined core distance and at least two distinct core-distance values (undefined counts as a value), builder variant with at least one setter call whose canonical result clusters something; distinct by construction of the enumerators.",
     );
     ctx.assume("reference = brute-force f64 distance table from the coordinates as rounded to the subject's float type; neighbourhood = OPEN ball {d < tolerance} (point itself included), the convention of all three linfa-nn indices (class B tolerances pin it)");
     ctx.assume("class B is decided only where exact arithmetic decides it: integer coordinates with L1 / Linf, or L2 with a perfect-square squared distance; a run in which some pair lies within 1e-11 (f64) / 2e-5 (f32) relative of the tolerance without being exactly decidable is counted indeterminate and only checked structurally (permutation / gap-free labels / no panic)");
@@ -573,6 +577,7 @@ fn main() {
     ctx.assume("DBSCAN is also called in the dataset form transform(DatasetBase::from(records)) on the layout and n=1025 families: same labels as the array form, records handed back unchanged; OPTICS only has the array-view form");
     ctx.assume("n = 1025 families use the tolerances derived from the 3 smallest distinct inter-point distances only (plus the OPTICS default infinite tolerance)");
     ctx.assume("memory layout: the 2-D / 3-D lattice families and the n=1025 grid are additionally passed as a column-major owned array, as the transposed view of a feature-major array, as a reversed-rows view of a reversed copy and as an every-second-row view of a larger array whose filler rows hold poison values (logically the same matrix, asserted); each run must satisfy the same oracle AND equal the standard-layout result bit for bit; only for the k-d tree on an input whose rows are not contiguous the documented panic ('views should be contiguous', rustdoc of linfa_nn::KdTree) is accepted instead - nothing else");
+    ctx.assume("builder histories: for every 4-point (thorough: 3..5-point) subset of the 3x3 lattice, min_points 2..3, DBSCAN and OPTICS, distance types L2Dist and LpDist (real exponent 1, decoy 3), the constructors params(m) / params_with(m, decoy distance, decoy index) / params_with(m, real distance, real index) and EVERY sequence of <= 3 calls of the setters tolerance / nn_algo / dist_fn with real or decoy values (plus all 6 orders of the real writes after a full decoy prefix): the getters of the checked params must equal the final parameter set of a last-write-wins model and the result must be bit-identical to params_with(m, dist, index).tolerance(t) of that final set; neither algorithm has a min_points setter (constructor argument only)");
     ctx.assume("min_points >= 2 and tolerance > 0 only (the parameter guards are C04's subject); finite coordinates");
 
     // ---------------- enumerate cases ----------------
@@ -799,6 +804,46 @@ fn main() {
     };
     par_sweep(&ctx, "density clustering sweep (n = 1025)", &big_cases, &work);
     par_sweep(&ctx, "density clustering sweep", &small_cases, &work);
+    // ---------------- builder histories (constructors x setter sequences) ----------------
+    let mut bcases: Vec<builder::BuilderCase> = Vec::new();
+    {
+        let lat = en::lattice_points(2, 3);
+        let sizes: Vec<usize> = ctx.pick(vec![4], vec![3, 4, 5]);
+        let floats: Vec<&str> = ctx.pick(vec!["f64"], vec!["f64", "f32"]);
+        let mut i = 0usize;
+        for &sz in &sizes {
+            for ss in en::k_subsets(9, sz) {
+                let pts: Vec<Vec<f64>> = ss.iter().map(|&i| ints(&lat[i])).collect();
+                for mp in [2usize, 3] {
+                    for f in &floats {
+                        // real tolerance 1.2 (between 1 and sqrt 2), decoy 2.6; the real / decoy index kinds rotate
+                        bcases.push(builder::BuilderCase { builder: true, points: pts.clone(), dim: 2, float: (*f).into(), min_points: mp, tol_real: 1.25, tol_decoy: 2.5, kind_real: i % 3, kind_decoy: (i + 1 + (i / 3) % 2) % 3, variant: None });
+                        i += 1;
+                    }
+                }
+            }
+        }
+    }
+    let b_evals = AtomicU64::new(0);
+    let b_states = AtomicU64::new(0);
+    let b_done = AtomicU64::new(0);
+    par_sweep(&ctx, "builder histories", &bcases, |c| {
+        let mut v = Vec::new();
+        let cnt = builder::run_case(c, &mut v);
+        ctx.evals(cnt.evals, cnt.nontrivial);
+        b_evals.fetch_add(cnt.evals, Ordering::Relaxed);
+        b_states.fetch_add(cnt.final_states_seen, Ordering::Relaxed);
+        b_done.fetch_add(1, Ordering::Relaxed);
+        ctx.violations(v);
+        ctx.sample(|| builder::sample(c));
+    });
+    if b_done.load(Ordering::Relaxed) != bcases.len() as u64 {
+        ctx.capped(&format!("only {} of {} builder cases completed", b_done.load(Ordering::Relaxed), bcases.len()));
+    }
+    ctx.extra("builder_cases", json!(bcases.len()));
+    ctx.extra("builder_setter_sequences_per_constructor", json!(builder::sequences().len()));
+    ctx.extra("builder_variants_run", json!(b_evals.load(Ordering::Relaxed)));
+    ctx.extra("builder_final_parameter_states_with_canonical_run", json!(b_states.load(Ordering::Relaxed)));
     let t = total.lock().unwrap().clone();
     let completed = done.load(Ordering::Relaxed);
     ctx.extra("cases_completed", json!(completed));
